@@ -99,6 +99,8 @@ class Explorer(object):
                             ev.append(('W', label, el))
                         else:
                             ev.append(('M', label, el))
+                    if h.sequence(label, j):
+                        ev.append(('MA', label))    # mark --all
         return ev
 
     def run(self):
@@ -154,6 +156,32 @@ class Explorer(object):
         kind = ev[0]
         if kind == 'I':
             return ev[1], ref2, True
+        if kind == 'MA':
+            from django.core.management import call_command
+            import contextlib
+            self.stats['command_events'] += 1
+            out = io.StringIO()
+            seq_now = h.sequence(ev[1], j)
+            already = [l for l in seq_now if l in ref['rec'].get(ev[1], [])]
+            try:
+                with contextlib.redirect_stdout(out):
+                    call_command('mark-evolution-applied', app_label=ev[1],
+                                 apply_all=True, interactive=False,
+                                 stdout=out)
+                refused = False
+            except Exception as e:
+                refused = True
+                if not already:
+                    self.add('C08|mark-all-command-fails|%s' %
+                             type(e).__name__, path,
+                             {'error': str(e)[:200]})
+                    return j, ref2, False
+            if not refused:
+                for l in seq_now:
+                    if l not in ref2['rec'].setdefault(ev[1], []):
+                        ref2['rec'][ev[1]].append(l)
+            self.compare_recorded(ref2, path, 'after-MA', None)
+            return j, ref2, True
         if kind in ('M', 'W'):
             from django.core.management import call_command
             self.stats['command_events'] += 1
@@ -279,7 +307,7 @@ class Explorer(object):
         return j, ref2, True
 
     def wiped_or_marked(self, path):
-        return any(e[0] in ('W', 'M', 'F') for e in path)
+        return any(e[0] in ('W', 'M', 'MA', 'F') for e in path)
 
     def app_tables_existed(self, label, j, path):
         # an app is "installed" once an upgrade covering it succeeded
@@ -298,7 +326,8 @@ class Explorer(object):
                 # was the label marked applied before its app was ever
                 # installed into this database?
                 marked_at = [i for i, e in enumerate(path)
-                             if e[0] == 'M' and e[1] == a and e[2] == l]
+                             if (e[0] == 'M' and e[1] == a and e[2] == l)
+                             or (e[0] == 'MA' and e[1] == a)]
                 installed_at = [i for i, e in enumerate(path)
                                 if e[0] in ('U', 'UP') or
                                 (e[0] == 'UA' and e[1] == a)]
